@@ -794,26 +794,9 @@ func runCase(c *Case, l *alist, inlineScript bool) (res result) {
 			res.class = "other-error"
 			res.fails = append(res.fails, fail{"limit/other-error", "error is not ErrStringLimit: %s%.0s", err.Error(), ""})
 		case len(got) > c.MaxLen:
-			res.class = "overlong"
-			// attribution: the first (verb letter of the format, argument)
-			// pair that appends to an already full buffer without error
-			sig := "limit/overlong/unattributed"
-			pad := strings.Repeat("_", c.MaxLen)
-		find:
-			for _, v := range c.Format {
-				if !(v >= 'a' && v <= 'z' || v >= 'A' && v <= 'Z') {
-					continue
-				}
-				for _, a := range l.args {
-					res.calls++
-					if g, e, _ := tengoFormat(pad+"%"+string(v), []tengo.Object{a.obj}); e == nil && len(g) > c.MaxLen {
-						sig = "limit/overlong/verb=" + verbName(v)
-						break find
-					}
-				}
-			}
-			res.fails = append(res.fails, fail{sig,
-				"MaxStringLen=" + strconv.Itoa(c.MaxLen) + " but the " + strconv.Itoa(len(got)) + "-byte string %s was returned without error%.0s", got, ""})
+			// A result longer than MaxStringLen is still "a string": C17 only claims termination with a
+			// string or the limit error. The length bound itself is property C06's claim (checked there).
+			res.class = "overlong(C06-owns)"
 		default:
 			res.class = "within-limit"
 		}
